@@ -15,7 +15,8 @@
       specification `Kernels/Interp.lean` of model.py:303-443:
         `interp_reproduces`, `interp_reproduces_square`, `interp_reproduces_growing`,
         `regression_normal_eqs`, `lagrange_delta`, `lagrange_sum_one`, `shift_base_invariant`,
-        `refit_after_shift`.
+        `refit_after_shift`, `full_rank_completion_interpolates` (+ `full_rank_completion_old`:
+        the pinned assignment of `model_const` before the SVD completion does not interpolate).
       The LAPACK calls enter as *hypotheses* stating their defining equations
       (`W = Q R`, `QᵀQ = 1`, `R x = QᵀF`  /  `Wᵀ = Q R`, `Rᵀ Rb = F`).
   (A) discrete, for **every** sequence of `Model` operations (no length bound), on the L1 state
@@ -114,6 +115,16 @@ theorem refit_after_shift (s : IModel K ι ν μ) (sh : ν → K) (hY : FullRank
     simpa [IModel.shiftBase, sub_eq_add_neg] using this
   exact Interp.interp_unique hY' h2 (IModel.shiftBase_interpolates s sh h)
 
+/-- **full-rank completion** (`make_full_rank=True`, the solver's default while growing when m ≥ n):
+    replacing the Jacobian by a completion `Jn` that agrees with it on every interpolation direction
+    keeps the data interpolated — *because* the constant term is recomputed from `Jn`
+    (model.py:410, added by `fix:` e983ea1). -/
+theorem full_rank_completion_interpolates (s : IModel K ι ν μ) (dg : Matrix (Option ν) μ K) (Jn : Matrix μ ν K)
+    (hfit : Interpolates s.Y s.F (modelConst dg s.xopt) (modelJac dg))
+    (hJn : ∀ t, Jn *ᵥ (s.Y t - s.xopt) = modelJac dg *ᵥ (s.Y t - s.xopt)) :
+    Interpolates s.Y s.F (s.fitCompleted dg Jn).c (s.fitCompleted dg Jn).J :=
+  Interp.fitCompleted_interpolates s dg Jn hfit hJn
+
 end Exact
 
 section Ordered
@@ -204,6 +215,43 @@ def exGRb : Matrix (Fin 2) (Fin 1) ℚ := Matrix.of ![![7], ![-5]]
 example : ∀ t, modelVal (exG.fit 5 (exGQ * exGRb)).c (exG.fit 5 (exGQ * exGRb)).J (exG.Y t) = exG.F t :=
   interp_reproduces_growing exG 5 exGQ exGR exGRb (by decide +kernel) (by decide +kernel) (by decide +kernel)
 example : (exG.fit 5 (exGQ * exGRb)).J = Matrix.of ![![-3 / 5, -4 / 5]] := by decide +kernel
+
+/-- growing phase, full-rank completion with the base point **not** among the points
+    (`xbase = 0`, points `(1,1)` and `(4,5)`, `xopt = (1,1)`): the fitted Jacobian `(-3/5, -4/5)`
+    is completed by a component orthogonal to the only direction `(3,4)`. -/
+def exGJn : Matrix (Fin 1) (Fin 2) ℚ := Matrix.of ![![-3 / 5 + 4, -4 / 5 - 3]]
+
+/-- the completion leaves the action on the interpolation direction unchanged … -/
+theorem exGJn_agrees : ∀ t, exGJn *ᵥ (exG.Y t - exG.xopt) =
+    modelJac (colScale (rightScaling 5) (exGQ * exGRb)) *ᵥ (exG.Y t - exG.xopt) := by decide +kernel
+
+/-- … so the repaired assignment interpolates (hypotheses of `full_rank_completion_interpolates`
+    are satisfiable) … -/
+example : Interpolates exG.Y exG.F (exG.fitCompleted (colScale (rightScaling 5) (exGQ * exGRb)) exGJn).c
+    (exG.fitCompleted (colScale (rightScaling 5) (exGQ * exGRb)) exGJn).J :=
+  full_rank_completion_interpolates exG _ exGJn
+    (Interp.interp_reproduces exG.Y exG.F exG.xopt 5 (exGQ * exGRb)
+      (Interp.qr_growing (R := exGR) (by decide +kernel) (by decide +kernel) (by decide +kernel)))
+    exGJn_agrees
+
+/-- … whereas the pinned assignment (constant term from the un-completed Jacobian) misses the data
+    by `(Jn − J)·xopt = 1` at both points: values `(8, 3)` instead of `(7, 2)`. -/
+theorem full_rank_completion_old :
+    ¬ Interpolates exG.Y exG.F (exG.fitCompletedOld (colScale (rightScaling 5) (exGQ * exGRb)) exGJn).c
+        (exG.fitCompletedOld (colScale (rightScaling 5) (exGQ * exGRb)) exGJn).J ∧
+    (Matrix.of fun t => modelVal (exG.fitCompletedOld (colScale (rightScaling 5) (exGQ * exGRb)) exGJn).c
+        (exG.fitCompletedOld (colScale (rightScaling 5) (exGQ * exGRb)) exGJn).J (exG.Y t) :
+        Matrix (Fin 2) (Fin 1) ℚ) = Matrix.of ![![8], ![3]] := by
+  have h2 : (Matrix.of fun t => modelVal (exG.fitCompletedOld (colScale (rightScaling 5) (exGQ * exGRb)) exGJn).c
+        (exG.fitCompletedOld (colScale (rightScaling 5) (exGQ * exGRb)) exGJn).J (exG.Y t) :
+        Matrix (Fin 2) (Fin 1) ℚ) = Matrix.of ![![8], ![3]] := by decide +kernel
+  refine ⟨fun h => ?_, h2⟩
+  have h0 := congrFun (h 0) 0
+  have e0 := congrFun (congrFun h2 0) 0
+  simp only [Matrix.of_apply] at e0
+  rw [e0] at h0
+  revert h0
+  decide +kernel
 
 /-- regression: 4 points on a line (`n = 1`), one residual; reduced QR with rational factors. -/
 def exR : IModel ℚ (Fin 4) (Fin 1) (Fin 1) where
